@@ -437,6 +437,16 @@ func execute1(t *testing.T, s Script, leakScan bool, budget time.Duration) Trace
 			}
 			if !ok {
 				tr.ClosedAt = now()
+				if leakScan {
+					// the output is closed = the discipline has terminated: at the first quiescent
+					// point, with no virtual time gone by, nothing it started may be left
+					bubble.Wait()
+					for id, fr := range bubble.LibGoroutines() {
+						if _, ok := before[id]; !ok {
+							tr.Leaked = append(tr.Leaked, fr+" (at the first quiescent point after the output was seen closed)")
+						}
+					}
+				}
 				break
 			}
 			idx := len(tr.Outs)
@@ -461,6 +471,15 @@ func execute1(t *testing.T, s Script, leakScan bool, budget time.Duration) Trace
 						}
 					default:
 						tr.NotClosedAtStop = true
+					}
+					if leakScan {
+						// Stop() has returned: the same holds
+						bubble.Wait()
+						for id, fr := range bubble.LibGoroutines() {
+							if _, ok := before[id]; !ok {
+								tr.Leaked = append(tr.Leaked, fr+" (at the first quiescent point after Stop() returned)")
+							}
+						}
 					}
 					break
 				}
@@ -547,7 +566,7 @@ func execute1(t *testing.T, s Script, leakScan bool, budget time.Duration) Trace
 			bubble.Wait()
 			after := bubble.LibGoroutines()
 			for id, fr := range after {
-				if _, ok := before[id]; !ok {
+				if _, ok := before[id]; !ok && len(tr.Leaked) == 0 {
 					tr.Leaked = append(tr.Leaked, fr)
 				}
 			}
